@@ -7,6 +7,7 @@ let () =
    | [ _; "http"; file ] -> Drv_http.http file
    | [ _; "proto"; file ] -> Drv_proto.proto file
    | [ _; "absval"; file; handle; tyid ] -> Drv_absval.absval file handle tyid
+   | [ _; "absent"; file ] -> Drv_absent.absent file
    | [ _; "codec-mesh"; file ] -> Drv_codec.codec_mesh file
    | [ _; "codec-image"; file ] -> Drv_codec.codec_image file
    | [ _; "codec-msg"; file ] -> Drv_codec.codec_msg file
